@@ -1830,8 +1830,9 @@ func (d *Data) writeExistingIndices(ctx *datastore.VersionedCtx, w http.Response
 	minTKey := NewLabelIndexTKey(0)
 	maxTKey := NewLabelIndexTKey(math.MaxUint64)
 	keyChan := make(storage.KeyChan, 1000)
+	var sendErr error
 	go func() {
-		store.SendKeysInRange(ctx, minTKey, maxTKey, keyChan)
+		sendErr = store.SendKeysInRange(ctx, minTKey, maxTKey, keyChan)
 		close(keyChan)
 	}()
 
@@ -1867,6 +1868,9 @@ func (d *Data) writeExistingIndices(ctx *datastore.VersionedCtx, w http.Response
 				timedLog.Infof("Found %d existing labels, currently at %d", numExist, label)
 			}
 		}
+	}
+	if sendErr != nil {
+		return fmt.Errorf("scan of label indices for data %q failed after %d labels: %v", d.DataName(), numExist, sendErr)
 	}
 	if w != nil {
 		fmt.Fprintf(w, "]")
